@@ -586,8 +586,9 @@ func (p *MkLexer) parseModifierPart(end1 byte, end2 byte, subst bool) bool {
 			p.lexer.Skip(1)
 		} else if len(p.lexer.Rest()) >= 2 && p.lexer.Rest()[1] == end2 {
 			p.lexer.Skip(1)
-		} else {
-			p.Expr()
+		} else if p.Expr() == nil && !p.lexer.SkipString("$$") {
+			// A lonely dollar that does not start an expression.
+			p.lexer.Skip(1)
 		}
 	}
 
